@@ -329,9 +329,12 @@ class PortPart:
         return f"port_agree {self._cfg_term(case)} (port0 0) {cf.lst(acts, sep=';\n    ')}"
 
     def model_term(self, case):
-        from vlib import framework as fw
-        obs = fw._impl_one(self, case) if hasattr(fw, "_impl_one") else None
-        if not obs or obs.get("raised") or "harness_error" in obs:
+        """diagnosis: index of the first observed action the model does not reproduce, with what the model did instead"""
+        try:
+            obs = self.run_impl(case)
+        except Exception:
+            return None
+        if not obs or obs.get("raised"):
             return None
         acts, err = self._actions(case, obs)
         if acts is None:
